@@ -77,17 +77,31 @@ type prog struct {
 	GIn, EIn []string
 	Class    string
 	Feat     map[string]bool
+	// further input vectors the same program is run on (class upd: one per
+	// combination of its conditions)
+	Alt [][2][]string
+	// HasTag: result TagOut is a bit set of the branches that were executed;
+	// TagWant = all of them
+	HasTag  bool
+	TagOut  int
+	TagWant uint64
+	// Regen draws another input pair of the same types (nil: unknown types)
+	Regen func(r *hxlib.Rng) (g, e []string)
+	// Parts: the source in pieces (nil: not available), for expose.go
+	Parts *srcParts
 }
 
 type gen struct {
-	r      *hxlib.Rng
-	vars   []gvar
-	sb     strings.Builder
-	nv     int
-	feat   map[string]bool
-	widths []int
-	depth  int
-	pool   []int
+	regens    []func(r *hxlib.Rng) []string // per main argument: fresh inputs of the same types
+	topScalar string                        // a scalar expression over the inputs valid at the top of main
+	r         *hxlib.Rng
+	vars      []gvar
+	sb        strings.Builder
+	nv        int
+	feat      map[string]bool
+	widths    []int
+	depth     int
+	pool      []int
 }
 
 var scalarWidths = []int{8, 8, 16, 16, 32, 32, 64, 7, 13, 24, 33}
@@ -413,6 +427,7 @@ func (g *gen) arg(name string, class string, idx int) (decl string, inputs []str
 		}
 		g.vars = append(g.vars, gvar{name: name, t: t})
 		g.feat["wide_input"] = true
+		g.regens = append(g.regens, func(rr *hxlib.Rng) []string { return []string{inputFor(rr, t)} })
 		return t.String(), []string{inputFor(r, t)}, ""
 	case class == "unsized" && (idx == 0 || r.Bool()):
 		// unsized integer argument: instantiated from the input's size
@@ -422,15 +437,27 @@ func (g *gen) arg(name string, class string, idx int) (decl string, inputs []str
 		g.vars = append(g.vars, gvar{name: name, t: t})
 		g.widths = append(g.widths, bits, bits)
 		g.feat["unsized_arg"] = true
+		g.regens = append(g.regens, func(rr *hxlib.Rng) []string { return []string{"0x" + hexDigits(rr, digits)} })
+		if g.topScalar == "" {
+			g.topScalar = name
+		}
 		return "uint", []string{"0x" + hexDigits(r, digits)}, ""
 	case class == "wide" && idx == 1:
 		t := ty{k: kUint, bits: []int{64, 64, 63, 33, 32, 3 + r.Intn(62)}[r.Intn(6)]}
 		g.vars = append(g.vars, gvar{name: name, t: t})
 		g.widths = append(g.widths, t.bits)
+		g.regens = append(g.regens, func(rr *hxlib.Rng) []string { return []string{inputFor(rr, t)} })
+		if g.topScalar == "" {
+			g.topScalar = name
+		}
 		return t.String(), []string{inputFor(r, t)}, ""
 	case c < 45:
 		t := g.randScalarType()
 		g.vars = append(g.vars, gvar{name: name, t: t})
+		g.regens = append(g.regens, func(rr *hxlib.Rng) []string { return []string{inputFor(rr, t)} })
+		if g.topScalar == "" {
+			g.topScalar = name
+		}
 		return t.String(), []string{inputFor(r, t)}, ""
 	case c < 75:
 		t := ty{k: kArr, bits: elemWidths[r.Intn(len(elemWidths))], n: 2 + r.Intn(5)}
@@ -440,6 +467,10 @@ func (g *gen) arg(name string, class string, idx int) (decl string, inputs []str
 		g.widths = append(g.widths, t.bits)
 		g.vars = append(g.vars, gvar{name: name, t: t})
 		g.feat["array_arg"] = true
+		g.regens = append(g.regens, func(rr *hxlib.Rng) []string { return []string{inputFor(rr, t)} })
+		if g.topScalar == "" {
+			g.topScalar = name + "[0]"
+		}
 		return t.String(), []string{inputFor(r, t)}, ""
 	default:
 		// struct argument: fields become readable values name.F
@@ -447,18 +478,30 @@ func (g *gen) arg(name string, class string, idx int) (decl string, inputs []str
 		tn := "S" + strings.ToUpper(name)
 		var sb strings.Builder
 		fmt.Fprintf(&sb, "type %s struct {\n", tn)
+		var fts []ty
 		for i := 0; i < nf; i++ {
 			var t ty
 			if r.Intn(3) == 0 {
 				t = ty{k: kArr, bits: elemWidths[r.Intn(3)], n: 2 + r.Intn(3)}
 			} else {
 				t = g.randScalarType()
+				if g.topScalar == "" {
+					g.topScalar = fmt.Sprintf("%s.F%d", name, i)
+				}
 			}
+			fts = append(fts, t)
 			fmt.Fprintf(&sb, "\tF%d %s\n", i, t)
 			inputs = append(inputs, inputFor(r, t))
 			g.vars = append(g.vars, gvar{name: fmt.Sprintf("%s.F%d", name, i), t: t, alias: true})
 		}
 		sb.WriteString("}\n")
+		g.regens = append(g.regens, func(rr *hxlib.Rng) []string {
+			var in []string
+			for _, t := range fts {
+				in = append(in, inputFor(rr, t))
+			}
+			return in
+		})
 		g.feat["struct_arg"] = true
 		return tn, inputs, sb.String()
 	}
@@ -540,7 +583,31 @@ func genProgram(r *hxlib.Rng, class string, idx int) *prog {
 	}
 	src := fmt.Sprintf("package main\n%sfunc main(a %s, b %s) (%s) {\n%s\treturn %s\n}\n",
 		types.String(), da, db, strings.Join(rtypes, ", "), g.sb.String(), strings.Join(rets, ", "))
-	return &prog{Src: src, GIn: ia, EIn: ib, Class: class, Feat: g.feat}
+	p := &prog{Src: src, GIn: ia, EIn: ib, Class: class, Feat: g.feat}
+	if len(g.regens) == 2 {
+		ra, rb := g.regens[0], g.regens[1]
+		p.Regen = func(rr *hxlib.Rng) ([]string, []string) { return ra(rr), rb(rr) }
+	}
+	if body := strings.TrimRight(g.sb.String(), "\n"); body != "" && g.topScalar != "" {
+		p.Parts = &srcParts{Pre: "package main\n" + types.String(), Sig: fmt.Sprintf("a %s, b %s", da, db), RTypes: rtypes,
+			Body: strings.Split(body, "\n"), Rets: rets, Scalar: g.topScalar}
+		inRets := map[string]bool{}
+		for _, x := range rets {
+			inRets[x] = true
+		}
+		for _, v := range g.vars {
+			if inRets[v.name] || v.t.size() > 4096 || v.t.k == kBool || len(p.Parts.Extra) >= 12 {
+				continue
+			}
+			inRets[v.name] = true
+			t := v.t.String()
+			if v.t.k == kArr {
+				t = "[]" + v.t.elem().String()
+			}
+			p.Parts.Extra = append(p.Parts.Extra, [2]string{v.name, t})
+		}
+	}
+	return p
 }
 
 // sweepProgram: a fixed small program over a garbler array that ends just
